@@ -39,7 +39,7 @@ let atts_str (l : attempt list) =
   String.concat "" (List.map (fun a ->
     Printf.sprintf "{%s g=%s %s}" (info_str a.a_value) (dec_of_n a.a_gen) (if a.a_ok then "ok" else "fail")) l)
 let state_str (s : st) =
-  Printf.sprintf "reg[%s e=%s] wait=%s un=%s au=%s ne=%s st=%s dn=%s rn=%s fail=%s ln=%s ls=%s rp=%s up=%s"
+  Printf.sprintf "reg[%s e=%s] wait=%s un=%s au=%s ne=%s st=%s dn=%s rn=%s fail=%s ln=%s ls=%s rp=%s up=%s md=%s"
     (info_str s.s_reg.r_info) (dec_of_n s.s_reg.r_info.epoch)
     (match s.s_waiting with None -> "-" | Some t -> dec_of_n t)
     (b01 s.s_unstable) (b01 s.s_auto) (dec_of_n s.s_nepoch) (dec_of_n s.s_stable)
@@ -48,7 +48,7 @@ let state_str (s : st) =
     (dec_of_n s.s_reg.r_fail)
     (join (List.map (fun (k, _) -> dec_of_n k) (sort_by_key s.s_lnodes)))
     (match s.s_lstart with None -> "-" | Some true -> "1" | Some false -> "0")
-    (dec_of_n s.s_replica) (b01 s.s_upgrading)
+    (dec_of_n s.s_replica) (b01 s.s_upgrading) (dec_of_n s.s_reg.r_mode)
 
 let parse_answers s =
   List.map (fun p ->
@@ -117,6 +117,7 @@ let () =
            | "LX", _ -> Some ELRemoveAll
            | "G", r :: _ -> Some (EReplica (n_of_dec r))
            | "U", b :: _ -> Some (EUpgrade (b = "1"))
+           | "Y", m :: _ -> Some (ERegMode (n_of_dec m))
            | _ -> None) in
          (match ev with
           | None -> Printf.printf "%s\tunsupported\n" id
